@@ -64,38 +64,52 @@ def count_halves(sa):
     if others:
         return False, "bitmap half: the map is written elsewhere"
     pops = [n for n in walk(top["then"]) if n.get("k") == "For" and n is not lt]
-    if len(pops) != 1:
+    direct = False
+    if not pops:
+        # `map.count_ones()`: every recorded bit is a pattern id, hence below len (lockstep lemma), so all set bits are counted bits
+        tl0 = q.result_leaves(top["then"])
+        tv0 = []
+        for x, _ in tl0:
+            x = unblock(x)
+            while x.get("k") == "Cast" or (x.get("k") == "Call" and (x.get("fn") or "").endswith(("convert::From::from", "convert::Into::into")) and len(x["args"]) == 1):
+                x = unblock(x["arg"] if x.get("k") == "Cast" else x["args"][0])
+            tv0.append(x)
+        direct = len(tv0) == 1 and tv0[0].get("k") == "Call" and (tv0[0].get("fn") or "").endswith("::count_ones") and q.var_id(tv0[0]["args"][0]) == map_id
+    if direct:
+        pass
+    elif len(pops) != 1:
         return False, "bitmap half: no single popcount loop"
-    pop = pops[0]
-    end = q._range_upto(pop["iter"], body)
-    if not (end is not None and call_is(end, "::len") and q.base_var(end["args"][0]) == mid):
-        return False, "bitmap half: popcount does not run over 0..len"
-    iv = strip_ref(pop["pat"]).get("id")
-    # bit test ((map >> i) & 1), either added to the counter or compared with 1 to guard `counter += 1`
-    bits = [n for n in walk(pop["body"]) if n.get("k") == "Binary" and n["op"] == "BitAnd" and lit(n["rhs"]) == ("i", 1) and peel(n["lhs"]).get("k") == "Binary" and peel(n["lhs"])["op"] == "Shr"
-            and q.var_id(peel(n["lhs"])["lhs"]) == map_id and q.base_var(peel(n["lhs"])["rhs"], pop["body"]) == iv]
-    adds = [n for n in walk(pop["body"]) if n.get("k") == "AssignOp" and n["op"] == "AddAssign"]
-    if len(bits) != 1 or len(adds) != 1:
-        return False, "bitmap half: popcount body is not one bit test and one addition"
-    add = adds[0]
-    cnt_id = q.var_id(add["lhs"])
-    if peel(add["rhs"]) is bits[0] or (peel(add["rhs"]).get("k") == "Cast" and peel(peel(add["rhs"])["arg"]) is bits[0]):
-        pass  # hits += (map >> i) & 1
-    else:
-        guard = [n for n in walk(pop["body"]) if n.get("k") == "If" and not n.get("else") and q.contains(n["then"], add)]
-        c = peel(guard[0]["cond"]) if len(guard) == 1 else {}
-        okg = lit(add["rhs"]) == ("i", 1) and c.get("k") == "Binary" and ((c["op"] == "Eq" and lit(c["rhs"]) == ("i", 1)) or (c["op"] == "Ne" and lit(c["rhs"]) == ("i", 0))) and peel(c["lhs"]) is bits[0]
-        if not okg:
-            return False, "bitmap half: the counter is not advanced exactly for the set bits"
-    tl = q.result_leaves(top["then"])
-    tv = [peel(x["arg"]) if peel(x).get("k") == "Cast" else peel(x) for x, _ in tl]
-    tv = [unblock(x) for x in tv]
-    def yields(x, vid):
-        while x.get("k") == "Block" and x.get("expr") is not None:
-            x = unblock(x["expr"])
-        return q.var_id(x) == vid
-    if not (len(tv) == 1 and yields(tv[0], cnt_id)):
-        return False, "bitmap half: the result is not the popcount"
+    pop = pops[0] if pops else None
+    if not direct:
+        end = q._range_upto(pop["iter"], body)
+        if not (end is not None and call_is(end, "::len") and q.base_var(end["args"][0]) == mid):
+            return False, "bitmap half: popcount does not run over 0..len"
+        iv = strip_ref(pop["pat"]).get("id")
+        # bit test ((map >> i) & 1), either added to the counter or compared with 1 to guard `counter += 1`
+        bits = [n for n in walk(pop["body"]) if n.get("k") == "Binary" and n["op"] == "BitAnd" and lit(n["rhs"]) == ("i", 1) and peel(n["lhs"]).get("k") == "Binary" and peel(n["lhs"])["op"] == "Shr"
+                and q.var_id(peel(n["lhs"])["lhs"]) == map_id and q.base_var(peel(n["lhs"])["rhs"], pop["body"]) == iv]
+        adds = [n for n in walk(pop["body"]) if n.get("k") == "AssignOp" and n["op"] == "AddAssign"]
+        if len(bits) != 1 or len(adds) != 1:
+            return False, "bitmap half: popcount body is not one bit test and one addition"
+        add = adds[0]
+        cnt_id = q.var_id(add["lhs"])
+        if peel(add["rhs"]) is bits[0] or (peel(add["rhs"]).get("k") == "Cast" and peel(peel(add["rhs"])["arg"]) is bits[0]):
+            pass  # hits += (map >> i) & 1
+        else:
+            guard = [n for n in walk(pop["body"]) if n.get("k") == "If" and not n.get("else") and q.contains(n["then"], add)]
+            c = peel(guard[0]["cond"]) if len(guard) == 1 else {}
+            okg = lit(add["rhs"]) == ("i", 1) and c.get("k") == "Binary" and ((c["op"] == "Eq" and lit(c["rhs"]) == ("i", 1)) or (c["op"] == "Ne" and lit(c["rhs"]) == ("i", 0))) and peel(c["lhs"]) is bits[0]
+            if not okg:
+                return False, "bitmap half: the counter is not advanced exactly for the set bits"
+        tl = q.result_leaves(top["then"])
+        tv = [peel(x["arg"]) if peel(x).get("k") == "Cast" else peel(x) for x, _ in tl]
+        tv = [unblock(x) for x in tv]
+        def yields(x, vid):
+            while x.get("k") == "Block" and x.get("expr") is not None:
+                x = unblock(x["expr"])
+            return q.var_id(x) == vid
+        if not (len(tv) == 1 and yields(tv[0], cnt_id)):
+            return False, "bitmap half: the result is not the popcount"
     # ---- set half
     le = scan(top["else"])
     if le is None:
